@@ -375,6 +375,8 @@ pub struct Proc {
     pub pending: Vec<Upd>,
     /// boundaries (store-call counts) at which an acked set became valid
     pub acked_at: Vec<(u64, usize)>,
+    /// segments written by flushes that returned Ok: (id, size_bytes, updates)
+    pub segs: Vec<(u64, u64, Vec<Upd>)>,
 }
 
 impl Proc {
@@ -397,7 +399,7 @@ impl Proc {
         for (i, f) in faults {
             line.push_str(&format!(" {} {}", i, f.name()));
         }
-        let mut p = Proc { store, pers, rid, text: String::new(), acked: Vec::new(), pending: Vec::new(), acked_at: vec![(0, 0)] };
+        let mut p = Proc { store, pers, rid, text: String::new(), acked: Vec::new(), pending: Vec::new(), acked_at: vec![(0, 0)], segs: Vec::new() };
         p.log(out, line, "ok".into());
         p
     }
@@ -426,6 +428,11 @@ impl Proc {
             Err(_) => (0, format!("err pending={} calls={}", self.pers.pending_count(), calls), false),
         };
         if ok {
+            if let Ok(fr) = &r {
+                if let Some(sg) = &fr.segment {
+                    self.segs.push((sg.id, sg.size_bytes, self.pending.clone()));
+                }
+            }
             self.acked.extend(self.pending.drain(..));
             self.acked_at.push((calls, self.acked.len()));
         } else {
